@@ -6,6 +6,18 @@ from idpyoidc.message import Message
 from idpyoidc.util import rndstr
 
 
+# What the client records, when it makes an authorization request, for its own protection.
+# These are compared with what comes back; a response never provides them.
+REQUEST_ONLY = ["nonce", "code_verifier", "code_challenge", "code_challenge_method"]
+
+
+def response_info(response: Union[Message, dict]) -> dict:
+    """What of an authorization response is kept with the state the response belongs to."""
+    if isinstance(response, Message):
+        response = response.to_dict()
+    return {k: v for k, v in response.items() if k not in REQUEST_ONLY}
+
+
 class Current(ImpExp):
     """A more powerful interface to a state DB."""
 
